@@ -284,6 +284,16 @@ func swapInGapsNs(seq []byte) []byte {
 		}
 	}
 
+	if firstLetter {
+		// no aligned bases at all: every unmapped position is external
+		for i, L := range seq {
+			if L == '*' {
+				seq[i] = '-'
+			}
+		}
+		return seq
+	}
+
 	for i, L := range seq {
 		if i < firstLetterIndx {
 			if L == '*' {
